@@ -137,6 +137,23 @@ func predC02(c *vk.Ctx, o *ocspObs) {
 	}
 }
 
+// predC02hub: the OCSP verdict is enforced by VerifyClientCertificate in every mode that enables OCSP.
+func predC02hub(c *vk.Ctx, o *hubObs) {
+	if o.Op[0] != "handshake" || !o.Cfg.OcspOn() || o.Exp.Cert != "c1" || !realDecided(o.Verdict) {
+		return
+	}
+	switch {
+	case o.Cfg.Ocsp == "revoked" && o.Verdict == "accept":
+		c.Violation(fmt.Sprintf("validator:revoked-accepted:mode=%s", o.Cfg.Mode),
+			fmt.Sprintf("mode %q enables OCSP, the responder says revoked, yet VerifyClientCertificate accepted (OCSP hits during the call: %d); cfg=%s", o.Cfg.Mode, o.OcspHits, o.Cfg), hubReplay(o))
+	case o.Cfg.Ocsp == "down" && o.Cfg.Aia && o.Verdict == "accept":
+		c.Violation(fmt.Sprintf("validator:strict-accepted-without-answer:mode=%s", o.Cfg.Mode),
+			fmt.Sprintf("mode %q with ocsp_aia_strict: the only responder is unreachable, yet the certificate was accepted; cfg=%s", o.Cfg.Mode, o.Cfg), hubReplay(o))
+	case o.Cfg.Ocsp != "revoked" && !(o.Cfg.Ocsp == "down" && o.Cfg.Aia) && o.Exp.Verdict == "accept" && o.Verdict != "accept" && o.Exp.Cause != "crl":
+		c.Violation(fmt.Sprintf("validator:lenient-denied:mode=%s", o.Cfg.Mode), "OCSP gives no reason to deny, yet verification failed: "+o.Err, hubReplay(o))
+	}
+}
+
 var c02Classes = []string{"good", "revoked", "unknown", "errStatus", "http500", "garbage", "refused", "wrongContent", "httpsUntrusted", "ldap"}
 
 func ocspCfg(strict bool, dur int, nu string, la, lb []string) OcspCfg {
@@ -204,6 +221,28 @@ func C02(c *vk.Ctx) {
 		if i%150 == 0 {
 			c.Sample(map[string]any{"cfg": cfg})
 		}
+	}
+	// through the whole validator: every mode that enables OCSP must enforce the OCSP verdict, whatever the CRL side says
+	var hcfgs []HubCfg
+	for _, mode := range []string{"unset", "prefer_ocsp", "prefer_crl", "ocsp_only"} {
+		for _, oc := range []string{"revoked", "down", "good"} {
+			for _, aia := range []bool{false, true} {
+				hcfgs = append(hcfgs, HubCfg{Mode: mode, Sig: "verify", Strict: false, Fetch: "actively", Disk: false, Conf: "none", Ocsp: oc, Aia: aia})
+			}
+		}
+	}
+	hgs, hres := exportHubGraphs(c, hcfgs, nil, 2)
+	c.Add("hub_states", hres.Distinct)
+	for ci, g := range hgs {
+		trans += int64(len(g.Edges))
+		pg := pruneDown(g, 0, rng)
+		pg.AllPaths(2, func(p []*graph.Edge) {
+			if len(p) != 2 || c.Violations() > 6 {
+				return
+			}
+			runHubWalk(c, hcfgs[ci], append([]*graph.Edge(nil), p...), RandomShape(rng), c.Seed*50021+int64(walks), predC02hub)
+			walks++
+		})
 	}
 	c.Set("transitions", trans)
 	c.Set("traces_validated_against_impl", int64(walks))
